@@ -10,6 +10,10 @@ package txval
 //       content, in the payer, or in a signature of an accepted transaction that carries exactly M signatures
 //       per set. Structural edits of scripts are judged by (A) alone.
 //   A panic of the decoder/validator is reported as a violation (its contract is an error code).
+//   (C) the verdict must not depend on how the object reached the validator: every judged tx draws an intake mode
+//       (plain / GetSignatureAddresses() called first, as the tx pool does / verified twice), and signature
+//       substitutions are also applied to the Sigs of an already validated object and re-verified: the verdict
+//       must equal that of a fresh decode of the mutated bytes.
 
 import (
 	"fmt"
@@ -35,6 +39,10 @@ const c16Rule = "txs with 1..16 signature sets (single key or m-of-n, n<=16) ove
 func c16Ev() *harn.Collector {
 	ev := harn.For("C16").Rule(c16Rule)
 	ev.Assume("ontology-crypto primitives (key decoding, single-signature verification, key ordering), go-ethereum PubkeyToAddress, sha256 and ripemd160 are trusted; the independent verifier shares no code with core/validation, core/signature, core/program or core/types")
+	for m := intake(0); m < numIntake; m++ {
+		ev.Floor("intake:"+m.String(), "judged", 0.2)
+		ev.Floor("intake:"+m.String()+":accepted", "intake:"+m.String(), 0.05)
+	}
 	ev.Assume("a byte substitution in signed content or in a signature invalidates the signature except with cryptographically negligible probability")
 	return ev
 }
@@ -168,14 +176,21 @@ func judge(t *rapid.T, ev *harn.Collector, kn c16Known, raw []byte, what string)
 		ev.Excluded()
 		return v, true
 	}
-	v = runValidator(raw)
+	mode := intake(uniR(t, 0, int(numIntake)-1, "intake"))
+	v = runValidatorMode(raw, mode)
+	ev.Class("judged")
+	ev.Class("intake:" + mode.String())
 	if v.Panic != "" {
-		t.Fatalf("C16: decoder/validator PANICKED (%s) on %s\nraw tx %x", v.Panic, what, raw)
+		t.Fatalf("C16: decoder/validator PANICKED (%s) on %s (intake %s)\nraw tx %x", v.Panic, what, mode, raw)
+	}
+	if v.Inconsistent != "" {
+		t.Fatalf("C16: verdict depends on the object's history: %s\ncase: %s\nraw tx %x", v.Inconsistent, what, raw)
 	}
 	if v.Accepted {
+		ev.Class("intake:" + mode.String() + ":accepted")
 		iv := indepVerify(raw)
 		if !iv.OK {
-			t.Fatalf("C16: validator ACCEPTED a transaction that does not meet the acceptance conditions: %s\ncase: %s\nraw tx %x", iv.Why, what, raw)
+			t.Fatalf("C16: validator ACCEPTED (intake %s) a transaction that does not meet the acceptance conditions: %s\ncase: %s\nraw tx %x", mode, iv.Why, what, raw)
 		}
 	}
 	return v, false
@@ -262,6 +277,8 @@ func TestC16_ByteSubstitutions(t *testing.T) {
 	kn := c16Replay()
 	ev.Floor("base:accepted", "base", 0.9)
 	ev.Floor("mut:sig", "mut", 0.25)
+	ev.Floor("sameobj", "mut:sig", 0.9)
+	ev.Floor("sameobj:rejected", "sameobj", 0.9)
 	ev.Floor("mut:payer", "mut", 0.1)
 	ev.Floor("mut:unsigned", "mut", 0.25)
 	ev.Floor("base:kind:EthSecp256k1", "base", 0.1)
@@ -281,6 +298,11 @@ func TestC16_ByteSubstitutions(t *testing.T) {
 		ev.Case(tx.nontrivial(), "base "+id+" "+desc)
 		if !v.Accepted {
 			return // (B) speaks about accepted transactions only; the floor on base:accepted guards vacuity
+		}
+		// (4) one object that passed validation; signature mutations are also applied to ITS Sigs and re-verified
+		obj := runValidator(raw)
+		if !obj.Accepted {
+			t.Fatalf("C16: verdict depends on the intake: tx [%s] was accepted before, a plain decode+verify of the same bytes gives %v\nraw tx %x", desc, obj, raw)
 		}
 		nm := 10
 		for i := 0; i < nm; i++ {
@@ -316,6 +338,29 @@ func TestC16_ByteSubstitutions(t *testing.T) {
 			if m.Sig != nil {
 				if g := tx.Sets[m.Sig.Set].Sigs[m.Sig.Idx]; g.Signer != nil {
 					ev.Class("mut:sig:" + g.Signer.Kind.String())
+				}
+				// same-object variant: the validated object's invocation script gets the same substitution
+				isp := lay.Invoke[m.Sig.Set]
+				orig := obj.Tx.Sigs[m.Sig.Set].Invoke
+				if len(orig) != isp.To-isp.From {
+					t.Fatalf("HARNESS: layout mismatch for invocation script of set %d", m.Sig.Set)
+				}
+				mutated := append([]byte{}, orig...)
+				mutated[m.Off-isp.From] ^= m.Xor
+				obj.Tx.Sigs[m.Sig.Set].Invoke = mutated
+				acc2, pan := reverify(obj.Tx)
+				obj.Tx.Sigs[m.Sig.Set].Invoke = orig
+				ev.Class("sameobj")
+				if pan != "" {
+					t.Fatalf("C16: validator PANICKED (%s) re-verifying an object after %s", pan, what)
+				}
+				if acc2 != mv.Accepted {
+					t.Fatalf("C16: %s applied to the Sigs of the ALREADY VALIDATED object: re-verification accepted=%v, but a fresh decode of the mutated bytes gives %v\noriginal %x\nmutated  %x", what, acc2, mv, raw, mraw)
+				}
+				if acc2 {
+					ev.Class("sameobj:accepted")
+				} else {
+					ev.Class("sameobj:rejected")
 				}
 			}
 			ev.Case(true, "mut "+id+" "+m.String())
